@@ -31,7 +31,7 @@ func init() {
 			"a late fault after which the data is nevertheless complete may legitimately succeed",
 		},
 		Exhaustive: func(string) bool { return true },
-		Stages:     stages(120, 4000, 0, 0),
+		Stages:     stages(420, 6000, 0, 0),
 		RunCase:    runC15,
 	})
 }
